@@ -34,7 +34,7 @@ Theorems (all for every pipeline, dataset, thread count, shard count, partition 
                                                                          are preserved, batch boundaries are not
                                                                          (`Witness.C03_batch_boundaries`, finding F18).
 Round 7 (size-dependent behaviour; sharded x sliced):
-`C03_cache_exactly_once`, `C03_cache_num_steps`, `C03_cache_every_cap`, `C03_cache_policy`,
+`C03_cache_exactly_once`, `C03_cache_num_steps`, `C03_cache_conservation`, `C03_cache_every_cap`, `C03_cache_policy`,
 `C03_cache_bounded_cap`, `C03_stage_runner_cached`     — the consumer-local cache of `DequeueIterator`
                                                          (`Model/DequeueCache.lean`) delivers every `get_batch()`
                                                          refill exactly once, for every refill size / cap;
@@ -343,6 +343,16 @@ theorem C03_cache_num_steps {α : Type} (batches : List (List α)) (hne : ∀ b 
     delivered 0 (some k) batches = batches.flatten.take k := by
   rw [delivered_eq 0 (some k) batches hne]
   simp only [flatMap_kept_zero]
+
+/-- **Conservation, also when the iteration is cut short by `num_steps`.**  Delivered elements, then what is
+still in the cache, then the refills not yet fetched are exactly the refills, in order: the elements a
+`DequeueIterator(num_steps = k)` drops (Model/Piter.lean: `lost`) are the rest of its cache, nothing else. -/
+theorem C03_cache_conservation {α : Type} (batches : List (List α)) (hne : ∀ b ∈ batches, b ≠ [])
+    (numSteps : Option Nat) :
+    delivered 0 numSteps batches ++
+      ((ending 0 numSteps batches).2.cache ++ (ending 0 numSteps batches).2.pending.flatten) = batches.flatten := by
+  have h := delivered_rest 0 numSteps batches hne
+  rwa [flatMap_kept_zero, St.rest, flatMap_kept_zero] at h
 
 /-- **Every cap of one `get_batch`.**  A producer that ran completely ahead left `xs` in an unbounded queue;
 `get_batch()` then returns slices of `bm = max_batch_size` elements.  For EVERY `bm > 0` (4096 today) and
